@@ -400,6 +400,15 @@ class Binding:
             kw["up_to"] = True
         return kw
 
+    @staticmethod
+    def _take(v):
+        """what a caller may do with a returned listing: keep a copy and empty the list it was handed.  A listing is the
+        caller's own object; emptying it must not reach the hypergraph (the next projection would show it)"""
+        c = list(v)
+        if type(v) is list:
+            del v[:]
+        return c
+
     def queries(self, obj, universe, full=True, cc=False):
         kind = self.kind
         q = {}
@@ -412,8 +421,8 @@ class Binding:
             except Exception:
                 return default
 
-        nodes = safe(lambda: list(obj.get_nodes()), [])
-        edges = safe(lambda: list(obj.get_edges()), [])
+        nodes = safe(lambda: self._take(obj.get_nodes()), [])
+        edges = safe(lambda: self._take(obj.get_edges()), [])
         if kind != "mux":
             v = safe(obj.num_nodes)
             if v is not None:
@@ -427,7 +436,7 @@ class Binding:
             for f in self.filters(N, full):
                 r = {"f": list(f)}
                 kw = self._fkw(f)
-                es = safe(lambda: list(obj.get_edges(**kw)))
+                es = safe(lambda: self._take(obj.get_edges(**kw)))
                 if es is None:
                     continue
                 r["edges"] = [self.from_api(e) for e in es]
@@ -435,7 +444,7 @@ class Binding:
                     v = safe(lambda: obj.num_edges(**self._fkw(f)))
                     if v is not None:
                         r["num"] = v
-                ws = safe(lambda: list(obj.get_weights(**kw)))
+                ws = safe(lambda: self._take(obj.get_weights(**kw)))
                 if ws is not None and all(isinstance(w, int) and not isinstance(w, bool) for w in ws):
                     r["weights"] = ws
                 if f[0] != "upto":
@@ -463,14 +472,14 @@ class Binding:
         for n in nodes:
             for f in nfs:
                 r = {"n": self.unlab(n), "f": list(f)}
-                v = safe(lambda: list(obj.get_incident_edges(n, **self._fkw(f))))
+                v = safe(lambda: self._take(obj.get_incident_edges(n, **self._fkw(f))))
                 if v is not None:
                     r["inc"] = [self.from_api(e) for e in v]
                 if kind == "dir":
-                    v = safe(lambda: list(obj.get_source_edges(n, **self._fkw(f))))
+                    v = safe(lambda: self._take(obj.get_source_edges(n, **self._fkw(f))))
                     if v is not None:
                         r["src"] = [self.from_api(e) for e in v]
-                    v = safe(lambda: list(obj.get_target_edges(n, **self._fkw(f))))
+                    v = safe(lambda: self._take(obj.get_target_edges(n, **self._fkw(f))))
                     if v is not None:
                         r["tgt"] = [self.from_api(e) for e in v]
                 if kind != "mux":
@@ -565,7 +574,7 @@ class Binding:
                 for b in range(a, hi + 1):
                     f = ("none", 0) if self.rng.random() < 0.6 else self.rng.choice(self.filters(N, True))
                     kw = self._fkw(f)
-                    v = safe(lambda: list(obj.get_edges(time_window=(a, b), **kw)))
+                    v = safe(lambda: self._take(obj.get_edges(time_window=(a, b), **kw)))
                     if v is not None:
                         wins.append({"a": a, "b": b, "f": list(f), "edges": [self.from_api(e) for e in v]})
             q["windows"] = wins
